@@ -45,7 +45,7 @@ QuickHyps(b) ==
   ELSE IF b.dsl = "IsotropicPlasticMisesFlow" THEN {"Tridimensional", "AxisymmetricalGeneralisedPlaneStrain"}
   ELSE IF b.dsl = "MultipleIsotropicMisesFlows" THEN IF b.law = "norton" THEN {"PlaneStrain"} ELSE {"Axisymmetrical"}
   ELSE IF b.dsl = "IsotropicStrainHardeningMisesCreep" THEN {"GeneralisedPlaneStrain"}
-  ELSE IF b = Brick("Plastic", "Mises", "Linear", "none") THEN {"Tridimensional", "PlaneStress"}
+  ELSE IF b = Brick("Plastic", "Mises", "Linear", "none") THEN {"Tridimensional", "PlaneStress", "AxisymmetricalGeneralisedPlaneStress"}
   ELSE IF b.algo \in {"Broyden", "LevenbergMarquardt"} THEN {"GeneralisedPlaneStrain"}
   ELSE IF b.algo \in {"rk4"} THEN {"Axisymmetrical"}
   ELSE {"Tridimensional"}
@@ -54,7 +54,7 @@ Behaviours(thorough) == IF thorough THEN ThoroughBehaviours ELSE QuickBehaviours
 \* jacobian, the isotropic DSLs, the Default source); three of them (3D, a plane stress one, a 1D one) for the other
 \* algorithms, whose generated code differs by the solver only; 3D and plane stress for the brick sample
 ThoroughHyps(b) ==
-  IF b.fam = "brick" THEN {"Tridimensional", "PlaneStress"}
+  IF b.fam = "brick" THEN {"Tridimensional", "PlaneStress", "AxisymmetricalGeneralisedPlaneStress"}
   ELSE IF b.dsl = "RungeKutta" THEN {"Tridimensional", "AxisymmetricalGeneralisedPlaneStrain"}
   ELSE IF b.dsl = "Implicit" /\ ~(b.algo = "NewtonRaphson" /\ b.jac \in {"analytic", "brick"})
        THEN {"Tridimensional", "PlaneStress", "AxisymmetricalGeneralisedPlaneStrain"}
